@@ -22,14 +22,13 @@ ASSUMPTIONS = ["N, Sz, S^2 = S_-S_+ + Sz(Sz+1) built from vlib.fock ladder matri
                "determinant-level clause compares <det|E(O)|det> on the real encoded reference circuit with the Fock diagonal value",
                "ansatz conservation is evaluated under Jordan-Wigner (and pair number under HCB for pUCCD)"]
 ANCHORS = [
-    ("tangelo/toolboxes/ansatz_generator/fermionic_operators.py", "28-158", "term lists for N, Sz, S^2"),
-    ("tangelo/toolboxes/ansatz_generator/penalty_terms.py", "30-150", "penalty construction and combination"),
+    ("tangelo/toolboxes/ansatz_generator/fermionic_operators.py", "number_operator,number_operator_list,spinz_operator,spinz_operator_list,spin2_operator,spin2_operator_list", "term lists for N, Sz, S^2"),
+    ("tangelo/toolboxes/ansatz_generator/penalty_terms.py", "number_operator_penalty,spin_operator_penalty,spin2_operator_penalty,combined_penalty", "penalty construction and combination"),
     ("tangelo/toolboxes/operators/operators.py", "normal_ordered,squared_normal_ordered,list_to_fermionoperator", "squared normal-ordered operators"),
-    ("tangelo/toolboxes/ansatz_generator/uccsd.py", "155-185", "UCCSD Pauli-word ordering"),
-    ("tangelo/toolboxes/ansatz_generator/upccgsd.py", "132-170", "UpCCGSD Pauli-word ordering"),
+    ("tangelo/toolboxes/ansatz_generator/uccsd.py", "build_circuit", "UCCSD Pauli-word ordering"),
+    ("tangelo/toolboxes/ansatz_generator/upccgsd.py", "build_circuit", "UpCCGSD Pauli-word ordering"),
 ]
-REQUIRED = {"operator_matrix": 20, "penalty_matrix": 100, "commutes_with_hamiltonian": 40, "encoded_on_determinant": 1500,
-            "ansatz_conserves_number_and_spin": 40}
+REQUIRED = {"operator_matrix": 9, "penalty_matrix": 64, "commutes_with_hamiltonian": 25, "encoded_on_determinant": 796, "ansatz_conserves_number_and_spin": 20}
 BUDGET = {"quick": 300, "thorough": 3000}
 TOL = 1e-9
 
